@@ -28,7 +28,7 @@ VERIF = os.path.dirname(HERE)
 CACHE = os.environ.get('OPTREE_VERIF_CACHE') or os.path.join(VERIF, '.cache')
 CLANG = 'clang++-14'
 PYBIND_INC = '/venv/lib/python3.12/site-packages/torch/include'
-IR_VERSION = '11'
+IR_VERSION = '15'
 
 CONFIGS = {
     # name: (CPython include dir, extra flags)
@@ -411,6 +411,7 @@ class _TUBuilder:
                 self._lamparent = f.key
                 body = self.conv(c)
                 self._lamparent = saved
+                resolve_bool_locals(body)
             else:
                 self._locskip(c)
         f.targs = tuple(targs)
@@ -556,6 +557,132 @@ class _TUBuilder:
                              lambda_parent=parent)
         self._cur = saved_cur
         return lf
+
+
+PURE_MEMBER_CALLS = {'empty', 'size', 'length', 'is_none', 'ptr', 'has_value', 'operator bool', 'is'}
+
+
+def _is_pure(e):
+    """no effect and no dependence on anything but the values it names: comparisons and logic over
+    locals, members, constants and a few const observers"""
+    for n in e.walk():
+        if n.kind in ('CallExpr', 'LambdaExpr', 'CXXNewExpr', 'CXXDeleteExpr', 'CXXThrowExpr',
+                      'CompoundAssignOperator'):
+            return False
+        if n.kind == 'CXXMemberCallExpr' and n.callee_name() not in PURE_MEMBER_CALLS:
+            return False
+        if n.kind == 'CXXOperatorCallExpr' and n.callee_name() not in (
+                'operator==', 'operator!=', 'operator->', 'operator*', 'operator bool', 'operator[]'):
+            return False
+        if n.kind == 'UnaryOperator' and n.op in ('++', '--'):
+            return False
+        if n.kind == 'BinaryOperator' and n.op == '=':
+            return False
+    return True
+
+
+def resolve_bool_locals(body):
+    """`const bool c = <pure test>; ... if (c)`: the condition is the test.  Where a condition (of
+    if / while / for / ?: and under !, &&, ||) names a const bool local whose initialiser is pure,
+    the IR shows the initialiser in its place, so the rules read the same test whether or not it
+    was given a name first.  A const local cannot change between its initialisation and the test,
+    but what its initialiser reads may: the substitution is made when nothing the initialiser
+    names is assigned anywhere in the function, or when the declaration is the init-statement of
+    the very if-statement that tests it."""
+    if body is None:
+        return
+    decls = {}
+    for n in body.walk():
+        if n.kind == 'VarDecl' and n.id is not None and n.kids and \
+                (n.type or '').replace(' ', '') in ('constbool', 'boolconst'):
+            init = n.kids[-1]
+            # `static_cast<bool>(test)` / `bool(test)`: the test itself (a condition converts to
+            # bool contextually anyway)
+            while init is not None and init.kind in ('CXXStaticCastExpr', 'CXXFunctionalCastExpr',
+                                                     'CStyleCastExpr') and init.kids and \
+                    (init.type or '').replace('const ', '').strip() == 'bool':
+                init = init.kids[-1]
+            if init is not None and _is_pure(init):
+                decls[n.id] = init
+    if not decls:
+        return
+
+    def names(e):
+        out = set()
+        for n in e.walk():
+            if n.kind == 'DeclRefExpr' and (n.ref or {}).get('name'):
+                out.add(n.ref['name'])
+            elif n.kind == 'MemberExpr' and n.name:
+                out.add('.' + n.name)
+        return out
+    # what the body assigns somewhere: a named test over such a value is only the same test where
+    # it is evaluated, i.e. in the if-statement's own init-statement
+    assigned = set()
+    for n in body.walk():
+        tgt = None
+        if n.kind in ('BinaryOperator', 'CompoundAssignOperator') and \
+                (n.op == '=' or n.kind == 'CompoundAssignOperator') and n.kids:
+            tgt = n.kids[0]
+        elif n.kind == 'UnaryOperator' and n.op in ('++', '--') and n.kids:
+            tgt = n.kids[0]
+        elif n.kind == 'CXXOperatorCallExpr' and n.callee_name() == 'operator=' and len(n.kids) > 1:
+            tgt = n.kids[1]
+        if tgt is not None:
+            assigned |= {x for x in names(tgt)}
+    own_init = {}
+    for n in body.walk():
+        if n.kind == 'IfStmt' and (n.x or {}).get('hasInit') and n.kids and n.kids[0] is not None:
+            for v in n.kids[0].walk():
+                if v.kind == 'VarDecl' and v.id in decls:
+                    own_init[v.id] = n
+    stable = {vid for vid, init in decls.items() if not (names(init) & assigned)}
+
+    def subst(e, owner=None):
+        if e is None:
+            return e
+        if e.kind == 'DeclRefExpr' and (e.ref or {}).get('id') in decls:
+            vid = e.ref['id']
+            if vid in stable or (owner is not None and own_init.get(vid) is owner):
+                return decls[vid]
+            return e
+        if (e.kind == 'UnaryOperator' and e.op == '!') or \
+                (e.kind == 'BinaryOperator' and e.op in ('&&', '||')):
+            e.kids = [subst(k, owner) for k in e.kids]
+        return e
+    for n in body.walk():
+        x = n.x or {}
+        if n.kind == 'IfStmt':
+            i = (1 if x.get('hasInit') else 0) + (1 if x.get('hasVar') else 0)
+            if i < len(n.kids):
+                n.kids[i] = subst(n.kids[i], n)
+        elif n.kind == 'WhileStmt':
+            i = 1 if x.get('hasVar') else 0
+            if i < len(n.kids):
+                n.kids[i] = subst(n.kids[i])
+        elif n.kind == 'ForStmt' and len(n.kids) >= 3:
+            n.kids[2] = subst(n.kids[2])
+        elif n.kind == 'ConditionalOperator' and n.kids:
+            n.kids[0] = subst(n.kids[0])
+        elif n.kind == 'DoStmt' and len(n.kids) >= 2:
+            n.kids[1] = subst(n.kids[1])
+    # a name that is now read nowhere stood for its test only: its declaration is dropped from an
+    # if-statement's init-statement, or marked as an alias (a no-op for every rule) where it is a
+    # statement of its own
+    used = set()
+    declared_in = set()
+    for n in body.walk():
+        if n.kind == 'DeclRefExpr' and (n.ref or {}).get('id') in decls:
+            used.add(n.ref['id'])
+    # the initialisers that were spliced into conditions still contain their own operands only
+    dead = {vid for vid in decls if vid not in used}
+    for n in body.walk():
+        if n.kind == 'IfStmt' and (n.x or {}).get('hasInit') and n.kids and n.kids[0] is not None:
+            vds = [v for v in n.kids[0].walk() if v.kind == 'VarDecl']
+            if vds and all(v.id in dead for v in vds):
+                n.kids = n.kids[1:]
+                n.x = dict(n.x, hasInit=False)
+        elif n.kind == 'VarDecl' and n.id in dead:
+            n.x = dict(n.x or {}, cond_alias=True)
 
 
 def _is_constant(k):
